@@ -17,8 +17,7 @@ go test -vet=off -count=1 -run 'Seed|seed|Demo' ./$pkg/ 2>&1 | tail -4
 echo "== existing tests with change (expect PASS)"
 rm -f $W/$pkg/zz_seed_demo_test.go
 if [ $# -gt 0 ]; then go test -vet=off -count=1 "$@" 2>&1 | tail -4; else go test -vet=off -count=1 ./$pkg/... 2>&1 | tail -4; fi
-git checkout -q -- . && git clean -fdq
-echo "== quick check against the change"
-cd /repo && git apply $O/patch.diff && cd /verif && (timeout 3000 ./bin/gosym check -id $id -tier quick 2>&1 | grep -v '^\[' | cut -c1-300 | tail -8) > $S/check.log; cat $S/check.log
-cd /repo && git checkout -q -- . && git status --short
+echo "== quick check against the change (run on the scratch worktree with the patch applied: -repo)"
+cd /verif && (timeout 3000 ./bin/gosym check -id $id -tier quick -repo $W $SEED_ARGS 2>&1 | grep -v '^\[' | cut -c1-300 | tail -8) > $S/check.log; cat $S/check.log
+cd $W && git checkout -q -- . && git clean -fdq
 mkdir -p /verif/seeded/$name && cp $O/patch.diff /verif/seeded/$name/ && cp $demo /verif/seeded/$name/ && cp $O/notes.md /verif/seeded/$name/ 2>/dev/null; cp $S/check.log /verif/seeded/$name/check_quick.log
